@@ -33,6 +33,12 @@ def _ck_cases(tier, rng):
     for _ in range(40000 if thorough else 5000):
         c = genck.random_case(rng, ans_weights=AW, max_posts=3, max_snaps=3, raising_errors=False)
         yield "rnd", c
+        if any(l["snaps"] for l in c["levels"]) and rng.random() < 0.35:
+            # the same call again on the same decorated callable: captured afresh, every time
+            import copy
+            c2 = copy.deepcopy(c)
+            c2["twice"] = True
+            yield "twice", c2
 
 
 def search_cases(rng, hint, n):
@@ -79,6 +85,9 @@ def _ck_spec(case, mo, io):
         return ["definition raised %s" % (io["define"],)]
     sp = mo["spec"]
     fails = []
+    if "second" in io and (io["second"]["trace"] != io["trace"] or io["second"]["out"] != io["out"]):
+        fails.append("the same call repeated on the same callable: first %s -> %s, second %s -> %s"
+                     % (io["trace"], io["out"], io["second"]["trace"], io["second"]["out"]))
     if not sp["callOk"]:
         return fails
     tr = io["trace"]
@@ -158,6 +167,10 @@ def _ck_stats(case, mo, io, dist):
 
 
 def run_impl(case):
+    if case.get("twice"):
+        a, b = implck.run_seq([case, case])
+        a["second"] = {"out": b["out"], "trace": b["trace"]}
+        return a
     return _C19.run_impl(case)
 
 
